@@ -144,6 +144,7 @@ type node struct {
 	port   int
 	mirror uint32
 	dcfg   daemon.Config
+	pub    cipher.PubKey
 }
 
 func freePort() int {
@@ -219,7 +220,7 @@ func startNode(dir string, c *chain, blocksRequestRate time.Duration) *node {
 		time.Sleep(20 * time.Millisecond)
 	}
 	time.Sleep(50 * time.Millisecond)
-	return &node{d: d, v: v, port: dc.Daemon.Port, mirror: dc.Daemon.Mirror, dcfg: dc, close: func() {
+	return &node{d: d, v: v, port: dc.Daemon.Port, mirror: dc.Daemon.Mirror, dcfg: dc, pub: c.pub, close: func() {
 		d.Shutdown()
 		<-done
 		db.Close()
@@ -403,7 +404,11 @@ func headOf(n *node) (uint64, []string) {
 		if err != nil || b == nil {
 			log.Fatal("chain hole")
 		}
-		hs = append(hs, b.HashHeader().Hex())
+		h := b.HashHeader().Hex()
+		if n.pub != (cipher.PubKey{}) && b.VerifySignature(n.pub) != nil {
+			h = "stored-with-a-signature-that-is-not-the-publisher's:" + h // never equal to a publisher block's hash
+		}
+		hs = append(hs, h)
 	}
 	return seq, hs
 }
@@ -446,9 +451,11 @@ func runSyncScript(dir string, c *chain, id int, script [][]item, source string)
 	}
 }
 
+var forcePattern bool // the next random script is the early-block pattern with a foreign signature
+
 func randomScript(n int) [][]item {
 	var s [][]item
-	if rng.Intn(4) == 0 {
+	if forcePattern || rng.Intn(4) == 0 {
 		// a genuine block arrives before its predecessor (refused for the gap), the chain catches up, and then the same block
 		// comes again with a flaw: signed by another key, re-bodied, or alien - what was seen earlier must not vouch for it
 		k := 2 + rng.Intn(n-1)
@@ -456,13 +463,17 @@ func randomScript(n int) [][]item {
 			s = append(s, []item{{q, "pub"}})
 		}
 		s = append(s, []item{{k, "pub"}})
-		if rng.Intn(2) == 0 {
-			s = append(s, []item{{k, "pub"}, {k - 1, "pub"}})
-		} else {
-			s = append(s, []item{{k - 1, "pub"}})
+		if !forcePattern && rng.Intn(3) == 0 {
+			s = append(s, []item{{k, "pub"}, {k - 1, "pub"}}) // the early block first: the message ends there
 		}
-		s = append(s, []item{{k, []string{"forged", "forged", "rebodied", "alien"}[rng.Intn(4)]}})
+		s = append(s, []item{{k - 1, "pub"}})
+		kind := []string{"forged", "forged", "rebodied", "alien"}[rng.Intn(4)]
+		if forcePattern {
+			kind = "forged"
+		}
+		s = append(s, []item{{k, kind}})
 		s = append(s, []item{{k, "pub"}})
+		forcePattern = false
 		return s
 	}
 	for k := 0; k < 2+rng.Intn(5); k++ {
@@ -760,6 +771,7 @@ func main() {
 			}
 		}
 		for i := 0; i < count; i++ {
+			forcePattern = i == 0
 			runSyncScript(dir, c, id, randomScript(4), "seeded")
 			id++
 		}
